@@ -222,12 +222,34 @@ func TestVerifC08(t *testing.T) {
 		}
 		c.R.Evaluations--
 		desc := map[string]any{"session": n, "anomaly": o.Anomaly}
+		// a session that never ends is a finding (calls that never return), not something to wait for
+		bounded := func(kind string, f func()) bool {
+			fin := make(chan struct{})
+			go func() { defer close(fin); f() }()
+			select {
+			case <-fin:
+				return true
+			case <-time.After(120 * time.Second):
+			}
+			dump := allStacks()
+			stuck := strings.Contains(dump, "servitor/") && (strings.Contains(dump, "sync.(*WaitGroup).Wait") || strings.Contains(dump, "sync.(*Mutex).Lock"))
+			if stuck && s.InFlight() == 0 {
+				c.Violation("concurrency:deadlock", fmt.Sprintf("a %s session did not finish within 120 s although no connection is in flight\n%s", kind, ev.Trunc(dump, 6000)), desc)
+			} else {
+				c.Inconclusive(kind + " session still running after 120 s but not provably stuck: " + ev.Trunc(dump, 2000))
+			}
+			return false
+		}
 		switch n % 4 {
 		case 3:
-			linearizabilitySession(c, s, g, r, desc)
+			if !bounded("linearizability", func() { linearizabilitySession(c, s, g, r, desc) }) {
+				return
+			}
 			continue
 		case 2:
-			pubStress(c, g, r, desc)
+			if !bounded("fan-out stress", func() { pubStress(c, g, r, desc) }) {
+				return
+			}
 			continue
 		}
 		/* ---- as main does it: a goroutine per key, a resize poller, start-up through Subcommand ---- */
@@ -311,6 +333,7 @@ func TestVerifC08(t *testing.T) {
 		x.settle(30 * time.Second)
 		close(stop)
 		pollers.Wait()
+		pageContents(c, x, g, desc)
 		if mo := atomic.LoadInt32(&x.maxOverlap); mo > 1 {
 			c.Violation("concurrency:frames-overlap", fmt.Sprintf("%d frames were being emitted at the same time", mo), desc)
 		}
@@ -322,6 +345,73 @@ func TestVerifC08(t *testing.T) {
 		c.Count("sessions_main_style", 1)
 		if n%8 == 0 {
 			c.Sample(map[string]any{"kind": "main-style session", "keys": nKeys, "interleaving_signature_prefix": ev.Trunc(sig, 120), "legend": "K key returned, F frame emitted, S start-up returned"})
+		}
+	}
+}
+
+/* Invariant at quiescence: whatever order keys, resizes and load completions took, every thread page in the browser history holds,
+   at each loaded position, the ancestor or reply of ITS OWN opened item that belongs there - a completion that was applied to
+   another page (or twice, or out of order) leaves a foreign item behind. Checked under the UI's own lock. */
+func pageContents(c *ev.Ctx, x *session, g *world.Generated, desc map[string]any) {
+	m := &model{g: g}
+	cands := map[string][]*world.V{}
+	add := func(v *world.V) {
+		if v != nil && v != world.Fail {
+			cands[v.Key()] = append(cands[v.Key()], v)
+		}
+	}
+	for _, n := range g.Nodes {
+		v := g.ViewOf(n)
+		add(v)
+		for _, p := range g.Parents(v) {
+			add(p)
+		}
+		for _, k := range g.Children(v) {
+			add(k)
+		}
+	}
+	x.s.m.Lock()
+	defer x.s.m.Unlock()
+	for i := 0; i < x.s.h.VerifLen(); i++ {
+		p := x.s.h.VerifAt(i)
+		center, ok := p.feed.VerifItem(0)
+		if !ok {
+			c.Count("list_pages_not_modelled", 1)
+			continue
+		}
+		cs := cands[wk.Key(center)]
+		if len(cs) == 0 {
+			c.Count("thread_pages_without_reference", 1)
+			continue
+		}
+		lo, hi := p.feed.VerifBounds()
+		firstMismatch := ""
+		explained := false
+		for _, cand := range cs {
+			mp := m.thread(cand)
+			mismatch := ""
+			for pos := lo + 1; pos < hi && mismatch == ""; pos++ {
+				it, _ := p.feed.VerifItem(pos)
+				want := mp.at(pos)
+				if want == nil {
+					mismatch = fmt.Sprintf("position %d holds %s, the thread of %s has nothing there", pos, wk.Key(it), cand.Key())
+				} else if wk.Key(it) != want.Key() {
+					mismatch = fmt.Sprintf("position %d holds %s, the thread of %s has %s there", pos, wk.Key(it), cand.Key(), want.Key())
+				}
+			}
+			if mismatch == "" {
+				explained = true
+				break
+			}
+			if firstMismatch == "" {
+				firstMismatch = mismatch
+			}
+		}
+		c.Count("thread_pages_checked_at_quiescence", 1)
+		c.Count("page_positions_checked", int64(hi-lo-1))
+		if !explained {
+			c.Violation("concurrency:page-content", fmt.Sprintf("history page %d (opened item %s, positions %d..%d loaded): %s", i, wk.Key(center), lo+1, hi-1, firstMismatch), desc)
+			return
 		}
 	}
 }
